@@ -81,12 +81,17 @@ func ShapesFor(f Field, c *Counter, gob bool) []Shaped {
 		return listShapes(c)
 	case KNLV:
 		mk := func(n string, v ap.NaturalLanguageValues) Shaped { return Shaped{n, reflect.ValueOf(v)} }
-		return []Shaped{
+		out := []Shaped{
 			mk("nl1", ap.NaturalLanguageValues{{Ref: ap.NilLangRef, Value: ap.Content("txt-plain value")}}),
 			mk("nl1tagged", ap.NaturalLanguageValues{{Ref: "en", Value: ap.Content("txt-tagged value")}}),
 			mk("nlN", ap.NaturalLanguageValues{{Ref: "en", Value: ap.Content("txt-english")}, {Ref: "fr", Value: ap.Content("txt-french")}}),
 			mk("nl3", ap.NaturalLanguageValues{{Ref: "en", Value: ap.Content("txt-english")}, {Ref: "fr", Value: ap.Content("txt-french")}, {Ref: "de-DE", Value: ap.Content("txt-german")}}),
 		}
+		if gob {
+			// a list may hold several values under one tag (the JSON form cannot say that, the binary form must keep it)
+			out = append(out, mk("nl-repeated-tag", ap.NaturalLanguageValues{{Ref: ap.NilLangRef, Value: ap.Content("txt-first")}, {Ref: ap.NilLangRef, Value: ap.Content("txt-second")}, {Ref: "en", Value: ap.Content("txt-third")}, {Ref: "en", Value: ap.Content("txt-fourth")}}))
+		}
+		return out
 	case KTime:
 		out := []Shaped{
 			{"time-utc", reflect.ValueOf(time.Date(2021, 3, 4, 5, 6, 7, 0, time.UTC))},
@@ -214,4 +219,35 @@ func Everything(st reflect.Type, gob bool) ap.Item {
 		p.Elem().Field(f.Index).Set(pick.V)
 	}
 	return p.Interface().(ap.Item)
+}
+
+// AnonymousCells enumerates, for every field of Object x its first shapes, an embedded object that has neither id nor type
+// and only that one property (the statement: "embedded objects may lack type and id"), placed in an item property and in a
+// list property of a Note.  What such an object says must not be judged "nothing".
+func AnonymousCells(gob bool) (cells []Cell) {
+	c := &Counter{}
+	st := StructType("Object")
+	for _, f := range Fields(st) {
+		if f.Kind == KID || f.Kind == KType {
+			continue
+		}
+		shapes := ShapesFor(f, c, gob)
+		for si, sh := range shapes {
+			if si >= 3 {
+				break
+			}
+			for _, pos := range []string{"Attachment", "Tag"} {
+				inner := reflect.New(st)
+				inner.Elem().Field(f.Index).Set(sh.V)
+				top := &ap.Object{ID: c.ID("top"), Type: ap.NoteType}
+				if pos == "Attachment" {
+					top.Attachment = inner.Interface().(ap.Item)
+				} else {
+					top.Tag = ap.ItemCollection{c.ID("first"), inner.Interface().(ap.Item)}
+				}
+				cells = append(cells, Cell{"anonymous-in-" + pos + " Object." + f.Name + " " + sh.Name, st, f, sh.Name, top})
+			}
+		}
+	}
+	return
 }
